@@ -177,9 +177,9 @@ def pick_shapes(sym, shapes, free):
     return shapes
 
 
-def h(sym, shapes, steps, slots, maxcall, lmax, stride, free=None):
+def h(sym, shapes, steps, slots, maxcall, lmax, stride, free=None, tail=True):
     shapes = pick_shapes(sym, shapes, free)
-    policy = SlotLimits(sym, slots, maxcall, lmax, stride) if slots else Unlimited()
+    policy = SlotLimits(sym, slots, maxcall, lmax, stride, tail) if slots else Unlimited()
     whos = [sym.choice("who%d" % k, 2) for k in range(steps)]
     # the exchange runs as plain CPython; the socket double resumes tracing for its symbolic limit decisions
     return run_concrete(sym, _exchange, shapes, whos, slots, policy)
@@ -329,10 +329,10 @@ def obligations(tier):
         plans = [("sched", grouped(SHAPES_T, 2, 1), dict(steps=8, slots=0, maxcall=0, lmax=0, stride=1)),
                  ("sched3", grouped(SHAPES_Q, 3, 2), dict(steps=7, slots=0, maxcall=0, lmax=0, stride=1)),
                  ("xfer", grouped(SHAPES_T, 2, 1), dict(steps=0, slots=1, maxcall=60, lmax=3, stride=1)),
-                 ("xfer3", grouped(SHAPES_Q, 3, 2), dict(steps=0, slots=1, maxcall=80, lmax=2, stride=17)),
-                 ("xfer2slots", single(four), dict(steps=0, slots=2, maxcall=60, lmax=2, stride=17)),
+                 ("xfer3", grouped(SHAPES_Q, 3, 2), dict(steps=0, slots=1, maxcall=80, lmax=2, stride=17, tail=False)),
+                 ("xfer2slots", single(four), dict(steps=0, slots=2, maxcall=60, lmax=2, stride=17, tail=False)),
                  ("both", grouped(SHAPES_Q, 2, 1), dict(steps=3, slots=1, maxcall=60, lmax=2, stride=1))]
-        pipes = [("pipe", grouped(SHAPES_T, 2, 1), 110, 2, 40), ("pipe3", grouped(SHAPES_Q, 3, 2), 80, 2, 30)]
+        pipes = [("pipe", grouped(SHAPES_T, 2, 1), 60, 2, 30), ("pipe3", grouped(SHAPES_Q, 3, 2), 40, 2, 30)]
 
     def label(t, free):
         return "+".join(t) + ("+*" * free[0] if free else "")
@@ -357,7 +357,8 @@ def obligations(tier):
             out.append(Ob("%s/%s" % (fam, label(t, free)), h, dict(shapes=list(t), free=free, **kw), budget=budget, covers=covers,
                           bounds=dict(N=n, shapes=list(t), free_shapes=list(free[1]) if free else [], schedule_steps=kw["steps"],
                                       limited_calls=kw["slots"], call_index=[0, kw["maxcall"]],
-                                      limit_bytes=[0, kw["lmax"] * kw["stride"]], limit_stride=kw["stride"])))
+                                      limit_bytes=[0, kw["lmax"] * kw["stride"]], limit_stride=kw["stride"],
+                                      tail_mode=kw.get("tail", True))))
     for fam, groups, maxcut, maxgap, maxend in pipes:
         for t, free in groups:
             n = len(t) + (free[0] if free else 0)
